@@ -8,7 +8,13 @@ from vcommon import b
 
 
 def _build():
-    return vc.build_driver("text_driver", ["text_driver.cpp"])
+    # the full driver also calls join over non-random-access iterators and with temporaries; if those call forms do not
+    # compile against this tree the driver is built without them (noted, no verdict from the missing forms)
+    r = vc.build_driver("text_driver", ["text_driver.cpp"], allow_fail=True)
+    if r[0] is not None:
+        return r[0]
+    vc.log("text_driver: optional call forms do not compile against this tree, building without them: " + " ".join(l for l in r[1].splitlines() if "error" in l)[:300])
+    return vc.build_driver("text_driver_min", ["text_driver.cpp"], flags=["-DVERIF_MINIMAL"])
 
 
 # ------------------------------------------------------------------------------------------------
@@ -45,6 +51,8 @@ def c17_compare(chk, case, o):
             outs.append(("out_default", o["out_default"]))
         if "out_list" in o:
             outs.append(("out_list (join over std::list iterators)", o["out_list"]))
+    for k, v in enumerate(o.get("alts", [])):
+        outs.append(("the same call with temporary / const arguments, variant %d" % (k + 1), v))
     for name, v in outs:
         if v != case["out"]:
             chk.diverge(where, "wrong-result", wit,
@@ -135,7 +143,7 @@ def run_c17(chk, replay):
     cur = []
     for c, o in zip(rc, robs):
         ev = dict(e=c["op"], a1=c["a1"], a2=c["a2"], a3=c["a3"], outcome=o.get("outcome"),
-                  out=o.get("out", []), out_iter=o.get("out_iter", []))
+                  out=o.get("out", []), out_iter=o.get("out_iter", []), alts=o.get("alts", []))
         cur.append((c, o, ev))
         if len(cur) == 25:
             execs.append(cur)
